@@ -29,6 +29,7 @@ import (
 	pvfs "github.com/cockroachdb/pebble/vfs"
 	rp "github.com/jamf/regatta/pebble"
 	"github.com/jamf/regatta/regattapb"
+	"github.com/jamf/regatta/replication/snapshot"
 	"github.com/jamf/regatta/storage"
 	"github.com/jamf/regatta/storage/table"
 	lvfs "github.com/lni/vfs"
@@ -388,6 +389,11 @@ func cluster3Scenario(out *Out, r *rand.Rand, sc int) {
 		}
 		out.Line(fmt.Sprintf("final %s@%d %d %s %d", hx([]byte(tname)), n.id, li, pairsDigest(ps), lastAcked), "ok")
 	}
+	// a restore in the running three-node cluster (C07 / C14 in situ): the node that is asked creates the
+	// recovery shard and records it in the catalogue; the OTHER nodes have to start it from their
+	// reconciliation loop or it never gets a quorum; afterwards every node must serve the restored table
+	// - exactly the source's content at the stream's index, under an id never used before.
+	restore3(out, r, nodes, tname)
 	ts := "ok"
 	if !termsOK {
 		ts = "TERM-MOVED-BACKWARDS"
@@ -419,4 +425,69 @@ func currentDir(n *cnode, tname string) string {
 		return ""
 	}
 	return d
+}
+
+func tableID(n *cnode, name string) uint64 {
+	tb, err := n.e.GetTable(name)
+	if err != nil {
+		return 0
+	}
+	return tb.ClusterID
+}
+
+func restore3(out *Out, r *rand.Rand, nodes []*cnode, tname string) {
+	src := nodes[r.Intn(3)]
+	path, idx := streamToFile(src.e, tname, false)
+	defer os.Remove(path)
+	dst := tname
+	if r.Intn(2) == 0 {
+		dst = tname + "r"
+	}
+	var maxID uint64
+	for _, n := range nodes {
+		if id := tableID(n, tname); id > maxID {
+			maxID = id
+		}
+	}
+	via := nodes[r.Intn(3)]
+	var err error
+	// the wait for the recovery shard's leader is bounded by twice the reconcile interval (3 s here): on a
+	// loaded machine one attempt may run out of time; a cluster that cannot do it in four attempts cannot do it
+	for attempt := 0; attempt < 4; attempt++ {
+		f, ferr := snapshot.OpenFile(path)
+		must(ferr)
+		err = via.e.Restore(dst, f)
+		f.Close()
+		if err == nil {
+			break
+		}
+		out.Count("restore3_attempt_failed")
+	}
+	if err != nil {
+		out.Line(fmt.Sprintf("restore3 %s via %d", dst, via.id), "err "+strings.ReplaceAll(err.Error(), "\n", " "))
+		return
+	}
+	out.Line(fmt.Sprintf("restore3 %s via %d", dst, via.id), "ok")
+	for _, n := range nodes {
+		var ps []pair
+		var rerr error
+		var id uint64
+		for i := 0; i < 200; i++ {
+			id = tableID(n, dst)
+			if id > maxID {
+				if ps, rerr = fullPairs(n.e, dst, true); rerr == nil {
+					break
+				}
+			} else {
+				rerr = fmt.Errorf("table id %d not above %d", id, maxID)
+			}
+			time.Sleep(100 * time.Millisecond)
+		}
+		if rerr != nil {
+			out.Line(fmt.Sprintf("restored %s@%d %d - 0", hx([]byte(tname)), n.id, idx), "err "+strings.ReplaceAll(rerr.Error(), " ", "_"))
+			continue
+		}
+		out.Line(fmt.Sprintf("restored %s@%d %d %s %s", hx([]byte(tname)), n.id, idx, pairsDigest(ps), b2i(id > maxID)), "ok")
+		out.Count("restored_replica")
+	}
 }
